@@ -195,12 +195,14 @@ class WriteTarFS(WrapFS):
 
     def close(self):
         # type: () -> None
-        if not self.isclosed():
-            try:
-                self.write_tar()
-            finally:
-                self._temp_fs.close()
-        super(WriteTarFS, self).close()
+        try:
+            if not self.isclosed():
+                try:
+                    self.write_tar()
+                finally:
+                    self._temp_fs.close()
+        finally:
+            super(WriteTarFS, self).close()
 
     def write_tar(
         self,
